@@ -532,7 +532,7 @@ from guppylang.std.option import Option, nothing, some
 
 
 @guppy
-def main(q: qubit @ owned, xs: array[int, 2]) -> int:
+def main(q: qubit @ owned, xs: array[int, 2] @ owned) -> int:
     h(q)
     s = 0
     for x in xs:
